@@ -197,9 +197,22 @@ func (w *World) runBlock(r *Rng, out *Out, t *tracked, traffic int, during func(
 	chk("mint.begin", w.Hook(func(ctx sdk.Context) { mint.BeginBlocker(ctx, w.app.MintKeeper) }))
 	chk("dispensation.begin", w.Hook(func(ctx sdk.Context) { dispensation.BeginBlocker(ctx, w.app.DispensationKeeper) }))
 	chk("margin.begin", w.Hook(func(ctx sdk.Context) { w.app.MarginKeeper.BeginBlocker(ctx) }))
+	// the invariants the theorems assume, evaluated on the implementation's state (when cheap enough)
+	pp := w.app.ClpKeeper.GetPmtpParams(w.ctx)
+	ep := w.app.ClpKeeper.GetPmtpEpoch(w.ctx)
+	nb := pp.PmtpPeriodEndBlock - pp.PmtpPeriodStartBlock + 1
+	inside := pp.PmtpPeriodStartBlock < w.height && w.height <= pp.PmtpPeriodEndBlock
+	if (!inside || (nb > 0 && nb <= 4096)) {
+		out.Emit(fmt.Sprintf("inv %d %s %s", w.height, w.lpState(), w.pmState()), "holds", "inv", false)
+	}
+	starting := w.height == pp.PmtpPeriodStartBlock && ep.EpochCounter == 0 && ep.BlockCounter == 0
 	// clp BeginBlocker with differential line
 	line := w.bbLine()
 	res := w.Hook(func(ctx sdk.Context) { clp.BeginBlocker(ctx, w.app.ClpKeeper) })
+	if starting && res == "ok" && nb > 0 && nb <= 4096 {
+		rp := w.app.ClpKeeper.GetPmtpRateParams(w.ctx)
+		out.Emit(fmt.Sprintf("powenv %d %d %d %s %s", pp.PmtpPeriodStartBlock, pp.PmtpPeriodEndBlock, pp.PmtpPeriodEpochLength, d2s(pp.PmtpPeriodGovernanceRate), d2s(rp.PmtpPeriodBlockRate)), "holds", "powenv", true)
+	}
 	ans := "panic"
 	if res == "ok" {
 		ans = w.bbAns(nil)
